@@ -34,7 +34,7 @@ class _Base(ac.Conv):
             return ["pure", self.var(op.result), [tag], [self.use(op.lhs), self.use(op.rhs)]]
         if isinstance(op, arith.IndexCastOp):
             return ["pure", self.var(op.result), ["cast"], [self.use(op.input)]]
-        if isinstance(op, func.CallOp):
+        if isinstance(op, func.CallOp) or ac.is_opaque(op):
             from accfg_common import call_has_effects
             self.ncall += 1
             self.calltag[op] = self.ncall
@@ -140,7 +140,7 @@ class ConvL(_Base):
         independently of the model's bookkeeping)"""
         accfg = self.accfg
         def effects(o):  # from the IR alone: an unannotated call anywhere inside
-            return any(isinstance(x, func.CallOp) and ac.call_has_effects(x) for x in o.walk())
+            return any(ac.call_has_effects(x) for x in o.walk())
         sv = op.state
         o = op.prev_op
         while o is not None:
